@@ -1,42 +1,9 @@
-import Jrpc.TransDefs
-import JrpcProofs.Trans.Frames
+import JrpcProofs.Trans.FramesLemmas
 /-
-  Translated `handleChanMessage` / `handleChanClose` against `Jrpc.Frames`.
+  Translated `handleChanClose` (websocket.go), regenerated from /repo on every run, against `Jrpc.handleChanClose`.
 -/
 namespace Jrpc.Trans
 open Jrpc Jrpc.MiniGo Jrpc.Generated.Progs
-
-/-- Translated `handleChanMessage`, for every params member a peer can send and every channel table: it returns
-    (no index out of range, no stuck path) and hands exactly the values `Jrpc.handleChanMessage` says to exactly the
-    handler registered for the channel id — the raw second element, with `ok = true`. -/
-theorem handleChanMessage_translated (s : ExecState) (p : CtlParams) :
-    ∃ ds : List (String × JVal),
-      (run (frameExt p) prog_wsConn_handleChanMessage (chanEnv s)).fx = some (ds.map fun d => encCb d.1 (rawOf d.2) true) ∧
-      Jrpc.handleChanMessage s p = .ok { s with delivered := s.delivered ++ ds.map fun d => (d.1, d.2.text) } := by
-  cases p with
-  | absent | nonArray | null =>
-    exact ⟨[], by rfl, by simp [Jrpc.handleChanMessage, CtlParams.decoded]⟩
-  | arr es =>
-    match es with
-    | [] => exact ⟨[], by rfl, by simp [Jrpc.handleChanMessage, CtlParams.decoded]⟩
-    | [_] => exact ⟨[], by rfl, by simp [Jrpc.handleChanMessage, CtlParams.decoded]⟩
-    | ⟨shape, text⟩ :: v2 :: rest =>
-      cases shape with
-      | bool | num | str | arr | obj =>
-        exact ⟨[], by rfl, by simp [Jrpc.handleChanMessage, CtlParams.decoded, JVal.chanIdOf]⟩
-      | null =>
-        refine ⟨if "0" ∈ s.chanHandlers then [("0", v2)] else [], ?_, ?_⟩
-        · have hg : (encChans s.chanHandlers).mapGet (.int 0) = _ := mapGet_encChans s.chanHandlers "0"
-          mgsimp [prog_wsConn_handleChanMessage, chanEnv, frameExt, CtlParams.decoded, errVal, encParam, shapeName, unmarshalU64, Val.hashable, hg]
-          by_cases hm : "0" ∈ s.chanHandlers <;> mgsimp [hm, hg, frameExt, encCb, rawOf, hndOf, shapeName, Val.hashable]
-        · by_cases hm : "0" ∈ s.chanHandlers <;> simp [Jrpc.handleChanMessage, CtlParams.decoded, JVal.chanIdOf, hm] <;> omega
-      | uint =>
-        refine ⟨if text ∈ s.chanHandlers then [(text, v2)] else [], ?_, ?_⟩
-        · have hg : (encChans s.chanHandlers).mapGet (encCh text) = _ := mapGet_encChans s.chanHandlers text
-          have hh := hashable_encCh text
-          mgsimp [prog_wsConn_handleChanMessage, chanEnv, frameExt, CtlParams.decoded, errVal, encParam, shapeName, unmarshalU64, hh, hg]
-          by_cases hm : text ∈ s.chanHandlers <;> mgsimp [hm, hg, hh, frameExt, encCb, rawOf, hndOf, shapeName, Val.hashable]
-        · by_cases hm : text ∈ s.chanHandlers <;> simp [Jrpc.handleChanMessage, CtlParams.decoded, JVal.chanIdOf, hm] <;> omega
 
 /-- Translated `handleChanClose`, for every params member and every (duplicate-free) channel table: it returns,
     removes exactly the entry `Jrpc.handleChanClose` removes and calls exactly that entry's handler with `(nil, false)`. -/
